@@ -350,6 +350,11 @@ S["long_queue_loop"] = dict(
     until=12, max_loop=4, groups=G1, max_budget=0,
     sims=[T("So"), E("A", group="g", emit=[0, None] * 12), E("B", group="g", emit_default=0)],
     conns=[C("So", "A", "po", "ti"), C("A", "B", "eo", "ti"), C("B", "A", "eo", "ti", weak=True)])
+# a loop that never settles, with a consumer of the loop that was started BEFORE the loop members
+S["loop_unsettled_consumer_first"] = dict(
+    until=2, max_loop=3, groups=G1, order=["Mo", "B", "A"],
+    sims=[E("A", group="g", init_event=0, emit_default=0), E("B", group="g", emit_default=0), E("Mo")],
+    conns=[C("A", "B", "eo", "ti"), C("B", "A", "eo", "ti", weak=True), C("A", "Mo", "eo", "ti")])
 # loops on two levels of nested groups: neither makes max_loop iterations, together they do
 S["loop_two_levels"] = dict(
     until=1, max_loop=3, groups={"g": None, "h": "g"}, max_budget=0,
